@@ -171,6 +171,42 @@ func c06Large(c *core.Ctx, work string, idx int) {
 			}
 		}
 		c.Distinct(fmt.Sprintf("large|%s|%s", ov.Name, stage))
+		// the same through prefetching iterators that read only some of the values they pass (the
+		// items skipped are recycled while their prefetch may still be running)
+		for pass := 0; pass < 3; pass++ {
+			pf, stride, rev := []int{1, 2, 3, 8}[r.Intn(4)], 2+r.Intn(4), r.Intn(3) == 0
+			_ = db.View(func(txn *badger.Txn) error {
+				io := badger.DefaultIteratorOptions
+				io.PrefetchSize, io.Reverse = pf, rev
+				it := txn.NewIterator(io)
+				defer it.Close()
+				seen, pos := 0, r.Intn(stride)
+				for it.Rewind(); it.Valid(); it.Next() {
+					pos++
+					seen++
+					if pos%stride != 0 {
+						continue
+					}
+					k := string(it.Item().KeyCopy(nil))
+					v, ok := want[k]
+					if !ok {
+						c.Violation("C06|large|"+stage+"|iter-unknown-key", fmt.Sprintf("iterator yields key %q that was never written", k), ov.Name)
+						continue
+					}
+					got, err := it.Item().ValueCopy(nil)
+					c.Count("large.values_checked_via_partial_iteration", 1)
+					if err != nil {
+						c.Violation("C06|large|"+stage+"|iter-read-error", fmt.Sprintf("key %s (%d bytes): %v", k, len(v), err), ov.Name)
+					} else if string(got) != string(v) {
+						c.Violation("C06|large|"+stage+"|iter-value-differs", fmt.Sprintf("key %s through an iterator (prefetch %d, every %d-th value read, reverse=%v): wrote %d bytes, read %d bytes (equal prefix %d)", k, pf, stride, rev, len(v), len(got), commonPrefix(got, v)), map[string]any{"options": ov.Name, "stage": stage})
+					}
+				}
+				if seen != len(want) {
+					c.Violation("C06|large|"+stage+"|iter-count", fmt.Sprintf("iterator yields %d keys, %d are live", seen, len(want)), ov.Name)
+				}
+				return nil
+			})
+		}
 	}
 	for i, sz := range sizes {
 		if !write(fmt.Sprintf("big%02d", i), sz) {
